@@ -67,12 +67,16 @@ def check(case):
         if is_raised(out):
             raise Discard("solver raised %s" % out.type)
         j = (float(out[0]), float(out[1]))
-        if not all(math.isfinite(v) for v in j) or not tr.evals:
+        if not all(math.isfinite(v) for v in j):
             raise Discard("non-finite fluxes")
+        if not tr.evals and tr.hooked:
+            raise Discard("no evaluation traced")
         if not (j[0] + j[1] != 0 and 0.0 <= j[0] / (j[0] + j[1]) <= 1.0):
             raise Discard("fluxes have no valid composition")
         fluxes.append(j)
-        yks.append(tr.evals[-1][0])
+        # last iterate from the trace; without the hook (renamed internals) the flux composition stands in and the
+        # tolerance below is widened by the requested precision
+        yks.append(tr.evals[-1][0] if tr.evals else None)
         pf = get_partial_pressures(case["T"], mix, build.composition(x, case["basis"]))
         pfs.append((float(pf[0]), float(pf[1])))
         if not all(math.isfinite(v) and v > 0 for v in pfs[-1]):
@@ -106,21 +110,27 @@ def check(case):
         require(match, "point %d: curve permeances %r are not flux / (feed - permeate partial pressure) = %r (mole-fraction partition) / %r "
                        "(mass-fraction partition)", k, (got[0].value, got[1].value), inv["molar"], inv["mass"])
         # round trip against the permeances the fluxes were computed with
+        unhooked = yks[k] is None
+        if unhooked:
+            yks[k] = ystar
         ppk = _pp(mix, case, yks[k], "mass")
         bad = None
         for i in defined:
             pps = _pp(mix, case, ystar, match[0])
             den = abs(pf[i] - pps[i])
             slack = 2 * abs(pps[i] - _pp(mix, case, yks[k], match[0])[i]) / den + 1e-9 if den > 0 else math.inf
+            if unhooked and den > 0:
+                slack += 20 * case["precision"] * max(abs(pf[i]), abs(pps[i])) / den
             if mode == "vacuum":
                 slack = 1e-12
-            if got[i].value == 0.0 and perms[i] * (pf[i] - ppk[i]) <= 0:
+            if got[i].value == 0.0 and (perms[i] * (pf[i] - ppk[i]) <= 0 or j[i] <= 0):
                 continue  # negative driving force: flux <= 0 is clamped by Permeance, nothing to recover
             if not relerr(got[i].value, perms[i]) <= slack:
                 bad = (i, got[i].value, perms[i], slack)
         if bad is not None:
+            extra = 20 * case["precision"] if unhooked else 0.0
             d7 = (mode == "pressure" and case["perm"]["p"] > 0 and "molar" in match
-                  and all(relerr(inv["mass"][i], perms[i]) <= 2 * abs(_pp(mix, case, ystar, "mass")[i] - ppk[i]) /
+                  and all(relerr(inv["mass"][i], perms[i]) <= (2 * abs(_pp(mix, case, ystar, "mass")[i] - ppk[i]) + extra * max(abs(pf[i]), abs(ppk[i]))) /
                           max(abs(pf[i] - _pp(mix, case, ystar, "mass")[i]), 1e-300) + 1e-9 for i in defined))
             if d7 and findings.is_known("D7", ID):
                 known.append("D7")
